@@ -31,7 +31,7 @@ HookTags(e) ==
   IN CASE e.ev = "rs.wait" -> <<>>
        \* Several goroutines may be inside at once if the lock admits readers; what RSCache!MutualExclusion demands of the code is that the
        \* cache is only ever CHANGED by a goroutine that is alone inside, and that nobody leaves who did not get in.
-       [] e.ev = "rs.locked" -> (IF e.b # n THEN <<"cache-length">> ELSE <<>>)
+       [] e.ev = "rs.locked" -> (IF e.b # n THEN <<"cache-length">> ELSE <<>>) \o (IF e.gid \in hs THEN <<"mutual-exclusion">> ELSE <<>>)
        [] e.ev = "rs.extend" -> (IF hs # {e.gid} THEN <<"mutual-exclusion">> ELSE <<>>)
                                 \o (IF e.b # n + 1 \/ e.a # n THEN <<"cache-append-only">> ELSE <<>>)
        [] e.ev = "rs.unlock" -> (IF e.gid \notin hs THEN <<"mutual-exclusion">> ELSE <<>>)
@@ -48,6 +48,7 @@ Tags(e) ==
     [] e.op = "cencode" -> (IF \E m \in memo : m.k = e.key /\ m.v # e.digest THEN <<"differs-between-calls">> ELSE <<>>)
     [] e.op = "ref" -> IF \E m \in memo : m.k = e.key /\ m.v # e.digest THEN <<"differs-from-alone">> ELSE <<>>
     [] e.op = "quiesce" -> (IF e.live # 0 THEN <<"goroutine-leak">> ELSE <<>>) \o (IF livegor # 0 THEN <<"goroutine-never-exited">> ELSE <<>>)
+                           \o (IF \E k \in DOMAIN holder : holder[k] # {} THEN <<"lock-never-released">> ELSE <<>>)
     [] e.op = "race" -> <<"data-race">>
     [] e.op = "deadlock" -> <<"deadlock">>
     [] e.op = "crash" -> <<"crash">>
